@@ -340,6 +340,41 @@ bool planSave(const std::string &path, const Plan &p) {
   return rename(tmp.c_str(), path.c_str()) == 0;
 }
 
+bool planLoadMulti(const std::string &path, std::vector<Plan> &plans, std::string &err) {
+  std::ifstream in(path);
+  if (!in) {
+    err = "cannot open " + path;
+    return false;
+  }
+  std::string line, cur;
+  plans.clear();
+  while (std::getline(in, line)) {
+    cur += line + "\n";
+    if (line == "end") {
+      Plan p;
+      if (!planFromText(cur, p, err)) return false;
+      plans.push_back(p);
+      cur.clear();
+    }
+  }
+  if (plans.empty()) {
+    err = "no plan in " + path;
+    return false;
+  }
+  return true;
+}
+
+bool planSaveMulti(const std::string &path, const std::vector<Plan> &plans) {
+  std::string tmp = path + ".tmp";
+  {
+    std::ofstream out(tmp);
+    if (!out) return false;
+    for (auto &p : plans) out << planToText(p);
+    if (!out) return false;
+  }
+  return rename(tmp.c_str(), path.c_str()) == 0;
+}
+
 std::string planSummary(const Plan &p) {
   std::ostringstream os;
   os << p.kind << "/" << p.profile << " seed=" << p.seed;
